@@ -352,6 +352,23 @@ def judge(cx, behaviours, trace, rejected, crash, trace_module, play_cmd="play",
           known_match=None):
     """Turn rejections/crashes into reproduced violations."""
     beh_lines = read_lines(behaviours)
+    if crash and os.path.exists(trace) and os.path.exists(trace + ".idx"):
+        # the executions completed before the process died are on disk: judge them first
+        try:
+            n_idx = len(read_lines(trace + ".idx"))
+            if n_idx > 0:
+                lines_ok = read_idx(trace)[-1][1]
+                all_lines = read_lines(trace)
+                open(trace, "w").write("\n".join(all_lines[:lines_ok]) + "\n")
+                early = validate(cx, trace, trace_module, trace_cfg)
+                if early:
+                    log("[judge] the harness process died later, but executions recorded before that are rejected")
+                    judge(cx, behaviours, trace, early, None, trace_module, play_cmd=play_cmd, play_extra=play_extra,
+                          trace_cfg=trace_cfg, known_match=known_match)
+                    if cx.violations:
+                        return
+        except Machinery:
+            pass
     if crash:
         i0 = crash["index"]
         if i0 < 0 or i0 >= len(beh_lines):
@@ -366,6 +383,16 @@ def judge(cx, behaviours, trace, rejected, crash, trace_module, play_cmd="play",
             t2, c2 = play(cx, one, "recrash", cmd=play_cmd, extra=(play_extra or []) + ["-seedindex", str(i)])
             if c2:
                 break
+            # the process survives this behaviour alone (the death may have needed the accumulated load, e.g.
+            # memory): what it recorded is judged like any other execution
+            tl = read_lines(t2)
+            ok, tout = validate_single(cx, tl, trace_module, trace_cfg, tag="recrash%d" % i)
+            if not ok:
+                what = describe_rejection(tout) + " (the harness process died when this ran after the preceding behaviours)"
+                d = bundle(cx, what, beh_lines[i], tl, tout, play_cmd=play_cmd, trace_module=trace_module,
+                           trace_cfg=trace_cfg, extra={"seedindex": i})
+                cx.violations.append((what, d))
+                return
         if not c2:
             raise Machinery("harness crash near behaviour %d did not reproduce:\n%s" % (i0, crash["output"]))
         what = "server process crashed: " + first_panic_line(c2["output"])
@@ -379,16 +406,45 @@ def judge(cx, behaviours, trace, rejected, crash, trace_module, play_cmd="play",
         bl = beh_lines[rj["beh"]]
         one = os.path.join(cx.scratch, "one-%d.ndjson" % rj["beh"])
         open(one, "w").write(bl + "\n")
-        # reproduce: replay the same behaviour with the same seed index
-        t2, c2 = play(cx, one, "re-%d" % rj["beh"], cmd=play_cmd,
-                      extra=(play_extra or []) + ["-seedindex", str(rj["beh"])])
+        # reproduce: replay the same behaviour with the same seed index (several attempts: what the
+        # behaviour exposes may depend on the goroutine scheduler)
+        ok, tout, tl, c2 = True, "", [], None
+        sidx = rj["beh"]
+        for attempt in range(8):
+            t2, c2 = play(cx, one, "re-%d" % rj["beh"], cmd=play_cmd,
+                          extra=(play_extra or []) + ["-seedindex", str(rj["beh"])])
+            if c2:
+                break
+            tl = read_lines(t2)
+            ok, tout = validate_single(cx, tl, trace_module, trace_cfg, tag="re%d" % rj["beh"])
+            if not ok:
+                break
         if c2:
             what = "server process crashed: " + first_panic_line(c2["output"])
             d = bundle(cx, what, bl, [], c2["output"], play_cmd=play_cmd, trace_module=trace_module, trace_cfg=trace_cfg)
             cx.violations.append((what, d))
             continue
-        tl = read_lines(t2)
-        ok, tout = validate_single(cx, tl, trace_module, trace_cfg, tag="re%d" % rj["beh"])
+        if ok and rj["beh"] > 0:
+            # the rejection may depend on state the process accumulated over the preceding executions
+            # (package-level state in the library): replay the window of executions that led to it
+            start = max(0, rj["beh"] - 300)
+            win = os.path.join(cx.scratch, "win-%d.ndjson" % rj["beh"])
+            open(win, "w").write("\n".join(beh_lines[start:rj["beh"] + 1]) + "\n")
+            for attempt in range(3):
+                t3, c3 = play(cx, win, "rewin-%d" % rj["beh"], cmd=play_cmd,
+                              extra=(play_extra or []) + ["-seedindex", str(start)])
+                if c3:
+                    break
+                rej3 = validate(cx, t3, trace_module, trace_cfg)
+                if rej3:
+                    ok = False
+                    r0 = rej3[0]
+                    w3 = read_lines(t3)
+                    tl = w3[r0["first"] - 1:r0["last"]]
+                    tout = r0["tlc"]
+                    bl = "\n".join(beh_lines[start:start + r0["beh"] + 1])
+                    sidx = start
+                    break
         if ok:
             # keep what was rejected, for diagnosis
             dd = os.path.join(VERIF, "replays", cx.pid, "unreproduced-%s-%d-%d" % (cx.tier, cx.seed, rj["beh"]))
@@ -407,7 +463,7 @@ def judge(cx, behaviours, trace, rejected, crash, trace_module, play_cmd="play",
                 cx.known.append(kf)
                 continue
         d = bundle(cx, what, bl, tl, tout, play_cmd=play_cmd, trace_module=trace_module, trace_cfg=trace_cfg,
-                   extra={"seedindex": rj["beh"]})
+                   extra={"seedindex": sidx})
         cx.violations.append((what, d))
 
 
